@@ -58,6 +58,29 @@ PROPS = {
             "payload is a pseudo-random function of the stream offset, so offset/duplication/reordering errors change bytes",
         ],
     ),
+    "C02": dict(
+        level="exploration",
+        level_text="Randomised exploration plus a single-fault sweep, decided on virtual time: (a) budgeted-loss (fair-lossy) "
+                   "whole-stack executions must deliver every accepted byte and return from flush/shutdown before a generous "
+                   "virtual deadline (a hang jumps there at no cost); (b) every single-datagram drop/duplicate/delay position of "
+                   "small baseline traces; (c) loss-free fixed-latency executions checked for wire silence > 2L+40ms, idle "
+                   "write/shutdown promptness and reader wake-ups in the same logical step. Unbounded 'eventually' is restated as "
+                   "bounded progress; failures are classified by root cause so that one known stall cannot hide another.",
+        level_note=SIM_NOTE + "; fairness model: per-identity drop budget 1, handshake packets protected (SYNs are not retransmitted, "
+                   "the accepting side gives up after 1 s by design), inactivity limit configured large in the fair-lossy family",
+        technique="runtime monitoring: bounded-progress and promptness oracles on virtual time + single-fault sweep",
+        budget=dict(quick=200, thorough=2400),
+        require=["c02_completion_cases", "c02_directions_completed", "c02_idle_shutdowns_checked", "c02_idle_writes_checked",
+                 "c02_reader_wakeups_checked", "c02_single_fault_positions_run", "dropped_datagrams"],
+        rule="cases = generated duplex executions (fair-lossy / loss-free profiles) and (baseline, fault position) pairs of the "
+             "single-fault sweep; non-trivial = at least one datagram dropped (fair-lossy), more than 6 datagrams (loss-free), "
+             "a fault position inside the trace (sweep); distinct = distinct normalised wire trace hash",
+        assumptions=[
+            "bounded progress on virtual time stands in for 'eventually' (deadline 6 h virtual, stall = no byte read for 30 virtual minutes)",
+            "the network is fair: no datagram identity is dropped more than once; SYN / SYN-ACK / first data packet are never dropped",
+            "uTP has no half-close: each side closes only after it has read everything it expects",
+        ],
+    ),
 }
 
 
@@ -228,7 +251,7 @@ def replay(path):
     if not build():
         return 2
     cs = r["case_seed"]
-    cmd = [SIMCHECK, "--property", r["property"], "--tier", r.get("tier", "quick"),
+    cmd = [SIMCHECK, "--property", r["property"], "--tier", r.get("tier", "quick"), "--seed", str(r.get("seed", 1)),
            "--replay", f"{r['family']}:{r['index']}:{cs}", "--dump-log"]
     return subprocess.run(cmd, cwd=ROOT, env=ENV).returncode
 
